@@ -57,7 +57,7 @@ def scratch(patched):
     d = tempfile.mkdtemp(prefix="seed-%s-%s-" % (pid, k), dir="/tmp")
     subprocess.check_call(["rsync", "-a", "--exclude", ".git", "/repo/", d + "/"])
     if patched:
-        r = subprocess.run(["patch", "-p1", "-s", "-i", patch], cwd=d, stdout=subprocess.PIPE, stderr=subprocess.STDOUT, text=True)
+        r = subprocess.run(["patch", "-p1", "-s", "-i", patch], cwd=d, stdout=subprocess.PIPE, stderr=subprocess.STDOUT, text=True, errors="replace")
         if r.returncode != 0:
             print("PATCH DOES NOT APPLY:\n" + r.stdout); shutil.rmtree(d); sys.exit(3)
     for f in demos:
@@ -67,7 +67,7 @@ def scratch(patched):
     return d
 
 def demo(d):
-    r = subprocess.run(run, shell=True, cwd=d, env=ENV, stdout=subprocess.PIPE, stderr=subprocess.STDOUT, text=True, timeout=900)
+    r = subprocess.run(run, shell=True, cwd=d, env=ENV, stdout=subprocess.PIPE, stderr=subprocess.STDOUT, text=True, errors="replace", timeout=900)
     return r.returncode, r.stdout[-1500:]
 
 a = scratch(False); b = scratch(True)
@@ -80,9 +80,9 @@ try:
     for f in demos:
         t = os.path.join(b, place) if len(demos) == 1 else os.path.join(b, os.path.dirname(place), os.path.basename(f))
         if os.path.exists(t): os.remove(t)
-    build = subprocess.run(["go", "build", "./..."], cwd=b, env=ENV, stdout=subprocess.PIPE, stderr=subprocess.STDOUT, text=True)
+    build = subprocess.run(["go", "build", "./..."], cwd=b, env=ENV, stdout=subprocess.PIPE, stderr=subprocess.STDOUT, text=True, errors="replace")
     meta["compiles"] = build.returncode == 0
-    r = subprocess.run([os.path.join(ROOT, "tools", "baseline.py"), b], stdout=subprocess.PIPE, text=True)
+    r = subprocess.run([os.path.join(ROOT, "tools", "baseline.py"), b], stdout=subprocess.PIPE, text=True, errors="replace")
     meta["suite"] = "green" if r.returncode == 0 else "RED: " + " | ".join(l.strip() for l in r.stdout.splitlines()[1:4])
     confirmed = rc_a == 0 and rc_b != 0 and meta["compiles"] and r.returncode == 0
     meta["confirmed"] = confirmed
@@ -93,7 +93,7 @@ try:
     if confirmed or "--keep-anyway" in sys.argv:
         for c in checks:
             e = dict(os.environ, VERIF_REPO=b)
-            rr = subprocess.run([os.path.join(ROOT, "check"), c, tier], env=e, stdout=subprocess.PIPE, stderr=subprocess.PIPE, text=True)
+            rr = subprocess.run([os.path.join(ROOT, "check"), c, tier], env=e, stdout=subprocess.PIPE, stderr=subprocess.PIPE, text=True, errors="replace")
             sigs = [l.strip() for l in rr.stderr.splitlines() if "sig=" in l][:4]
             viol = [l for l in rr.stdout.splitlines() if l.startswith("VIOLATION")]
             for l in viol:
